@@ -46,7 +46,7 @@ Verdicts(e, r) ==
             THEN <<[l |-> l, kind |-> "index"]>> ELSE <<>>
   IN b1 \o b2 \o b3 \o b4
 
-TStep == TC!TraceStep /\ bad' = bad \o Verdicts(Rec[l], Rec[l].r)
+TStep == TC!TraceStep /\ bad' = bad \o (IF Rec[l].a = "panic" THEN <<[l |-> l, kind |-> "panic"]>> ELSE Verdicts(Rec[l], Rec[l].r))
 Report == TC!TraceDone => PrintT(<<"VERDICT", ToJson([events |-> Len(Rec), bad |-> bad])>>)
 Accepted == (TLCGet("stats").diameter - 1 = Len(Rec)) \/ PrintT(<<"TRACE-NOT-CONSUMED", TLCGet("stats").diameter - 1, Len(Rec)>>)
 =============================================================================
